@@ -19,6 +19,9 @@
    mode 1  (1 kinds data prelen script)       decode arbitrary bytes;  output (BR SR)
    mode 2  (2 item buflen seed)               in-place writer into a buffer of exactly buflen bytes;
            output (0 n buf) or (1) when the call panicked
+   mode 3  (3 lo n)                           the harness itself runs every i32 whose bit pattern is in
+           [lo, lo+n) through the three writers and two readers against encoding/binary (thorough:
+           all 2^32 values); output (disagreements ((v bytes)...)): a few samples, checked against enc
 
    specok (mode 0): every writer's bytes = concat (map enc items) in place / after pre; every
    returned and advertised length = |enc item|; a successful flush hands the sink exactly the
@@ -211,5 +214,14 @@ Definition check (c : cval) : verdict :=
       mk (cval_eqb m out) s (2000 + kind_code (kind_of it) * 16 + (match m with L [I 1%Z] => 1 | _ => 0 end))%Z
     | None => bad_case
     end
+  (* ---------------- mode 3: i32 range sweep run inside the harness ---------------- *)
+  | L [L [I 3%Z; I lo; I n]; L [I nbad; L samples]] =>
+    if (lo <? 0)%Z || (n <? 1)%Z || (Z.of_N two32 <? lo + n)%Z then bad_case else
+    let okk := forallb (fun sv => match sv with
+                                  | L [I v; B b] => fitsb 32 v && beqb b (enc (II32 v))
+                                                    && (lo <=? Z.of_N (u32 v))%Z && (Z.of_N (u32 v) <? lo + n)%Z
+                                  | _ => false end) samples in
+    let r := (nbad =? 0)%Z && okk && negb (Nat.eqb (length samples) 0) in
+    mk r r 3000%Z
   | _ => bad_case
   end.
